@@ -10,7 +10,7 @@ Helpers for C04 / C05 (ADU round trips).
 * exception PDUs: complete for function values 1 … 0x2B, decoded as exceptions;
 * the PDU-level round trip of the fixed-layout kinds;
 * a frame whose function code the length table does not know is never reported by the scanner
-  when it stands alone (`scan_short_none`).
+  when it stands alone (`scanFrom_none`, `tcp_decodeRsp_unknown`, `rtu_decodeRsp_unknown`).
 -/
 namespace Modbus.AduRT
 open Reception
@@ -548,19 +548,19 @@ def _root_.Modbus.Response.FixedLayout : Response → Prop
   | .writeSingleRegister _ _ | .writeMultipleCoils _ _ | .writeMultipleRegisters _ _ => True
   | _ => False
 
-theorem Request.FixedLayout.standard {r : Request} (h : r.FixedLayout) : r.Standard := by
+theorem req_fixed_standard {r : Request} (h : r.FixedLayout) : r.Standard := by
   cases r <;> first | trivial | exact absurd h (by simp [Request.FixedLayout])
 
-theorem Request.FixedLayout.encodable {r : Request} (h : r.FixedLayout) : r.Encodable := by
+theorem req_fixed_encodable {r : Request} (h : r.FixedLayout) : r.Encodable := by
   cases r <;> first | trivial | exact absurd h (by simp [Request.FixedLayout])
 
-theorem Request.FixedLayout.dataExact {r : Request} (h : r.FixedLayout) : r.DataExact := by
+theorem req_fixed_dataExact {r : Request} (h : r.FixedLayout) : r.DataExact := by
   cases r <;> first | trivial | exact absurd h (by simp [Request.FixedLayout])
 
-theorem Response.FixedLayout.frameable {r : Response} (h : r.FixedLayout) : r.Frameable := by
+theorem rsp_fixed_frameable {r : Response} (h : r.FixedLayout) : r.Frameable := by
   cases r <;> first | trivial | exact absurd h (by simp [Response.FixedLayout])
 
-theorem Response.FixedLayout.encodable {r : Response} (h : r.FixedLayout) : r.Encodable := by
+theorem rsp_fixed_encodable {r : Response} (h : r.FixedLayout) : r.Encodable := by
   cases r <;> first | trivial | exact absurd h (by simp [Response.FixedLayout])
 
 /-- PDU-level round trip of the fixed-layout requests: every address, every 16-bit value, both coil states -/
@@ -608,7 +608,7 @@ def _root_.Modbus.Request.RtuFrameable : Request → Prop
   | .writeSingleCoil _ _ | .writeSingleRegister _ _ | .readWriteMultipleRegisters _ _ _ _ => True
   | _ => False
 
-theorem Request.RtuFrameable.standard {r : Request} (h : r.RtuFrameable) : r.Standard := by
+theorem req_rtuFrameable_standard {r : Request} (h : r.RtuFrameable) : r.Standard := by
   cases r <;> first | trivial | exact absurd h (by simp [Request.RtuFrameable])
 
 theorem req_image_first_ne (r : Request) (h : r.RtuFrameable) :
@@ -626,5 +626,111 @@ theorem req_image_first_ne (r : Request) (h : r.RtuFrameable) :
 /-- `FunctionCode::new` keeps the byte -/
 theorem value_new (f : UInt8) : (FunctionCode.new f).value = f := by
   revert f; apply byte_cases; decide +kernel
+
+theorem req_image_pos (r : Request) (h : r.Encodable) : 1 ≤ r.image.length := by
+  cases r <;> simp_all [Request.image, Request.Encodable]
+
+theorem rspPdu_image_pos (p : ResponsePdu) (h : p.Encodable) : 1 ≤ p.image.length := by
+  cases p with
+  | ok r => exact h.2
+  | error e => simp [ResponsePdu.image, ExceptionResponse.image]
+
+/-! ### the request table's bound; custom function codes -/
+
+/-- bounds of the request table's entries -/
+def ReqRuleLe : Spec.LenRule → Prop
+  | .fixed n => n ≤ 7
+  | .count1 base _ => base ≤ 10
+  | .count2 _ _ => False
+  | .unknown => True
+
+instance : DecidablePred ReqRuleLe := fun r => by
+  cases r <;> unfold ReqRuleLe <;> infer_instance
+
+theorem req_rule_le (fc : UInt8) : ReqRuleLe (Spec.lenRule .req fc.toNat) := by
+  revert fc; apply byte_cases; decide +kernel
+
+theorem predict_req_le (hdr : Nat) (b : Bytes) (n : Nat) (h : Spec.predict hdr .req b = .len n) : n ≤ 265 := by
+  unfold Spec.predict at h
+  split at h
+  · cases h
+  · cases hfc : b[hdr]? with
+    | none => rw [hfc] at h; cases h
+    | some fc =>
+      rw [hfc] at h
+      simp only at h
+      have hb := req_rule_le fc
+      cases hr : Spec.lenRule .req fc.toNat with
+      | fixed m => rw [hr] at h hb; simp only [ReqRuleLe] at h hb; cases h; omega
+      | unknown => rw [hr] at h; cases h
+      | count1 base off =>
+        rw [hr] at h hb; simp only [ReqRuleLe] at h hb
+        cases hc : b[hdr + off]? with
+        | none => rw [hc] at h; cases h
+        | some c => rw [hc] at h; simp only at h; have := c.toNat_lt; cases h; omega
+      | count2 base off => rw [hr] at hb; exact absurd hb (by simp [ReqRuleLe])
+
+/-- a complete request PDU has at most 265 bytes, so its MBAP length field is exact -/
+theorem req_complete_le {pdu : Bytes} (h : Spec.PduComplete .req pdu) : pdu.length ≤ 265 :=
+  predict_req_le 0 pdu _ h
+
+/-- a complete PDU starts with a function code the table knows -/
+theorem complete_known {d : Spec.Dir} {pdu : Bytes} (h : Spec.PduComplete d pdu) :
+    ∃ c, pdu[0]? = some c ∧ Spec.lenRule d c.toNat ≠ .unknown := by
+  unfold Spec.PduComplete Spec.predict at h
+  split at h
+  · cases h
+  · cases hfc : pdu[0]? with
+    | none => rw [hfc] at h; cases h
+    | some fc =>
+      refine ⟨fc, rfl, ?_⟩
+      intro hu
+      rw [hfc] at h
+      simp only [hu] at h
+      cases h
+
+theorem req_known_lt (c : UInt8) (h : Spec.lenRule .req c.toNat ≠ .unknown) : c < 0x80 := by
+  revert h; revert c; apply byte_cases; decide +kernel
+
+/-- PDU-level round trip of a custom request whose code is not one of the nine modelled kinds:
+    the decoder returns `Custom(FunctionCode::Custom(code), data)` -/
+theorem req_decode_custom (fc : FunctionCode) (d : Bytes) (hlt : fc.value < 0x80)
+    (hm : fc.value ∉ modelledReqCodes) :
+    Request.decode (Request.custom fc d).image = .ok (.custom (.custom fc.value) d) := by
+  have hv := value_new fc.value
+  simp only [modelledReqCodes, List.mem_cons, List.not_mem_nil, or_false, not_or] at hm
+  show Request.decode ([fc.value] ++ d) = _
+  unfold Request.decode
+  simp only [List.singleton_append, List.isEmpty_cons, idx, List.getElem?_cons_zero, Res.bind'_ok,
+    Bool.false_eq_true, if_false]
+  generalize FunctionCode.new fc.value = g at hv
+  cases g
+  case custom c =>
+    have hc : c = fc.value := hv
+    subst hc
+    simp [minRequestPduLen, hlt, sliceFrom]
+  all_goals first
+    | (exfalso; rw [← hv] at hm; simp [FunctionCode.value] at hm; done)
+    | simp [minRequestPduLen, hlt, sliceFrom]
+
+/-- … and of a custom response: `Custom(FunctionCode::new(code), data)` -/
+theorem rsp_decode_custom (fc : FunctionCode) (d : Bytes)
+    (hm : fc.value ∉ modelledReqCodes) :
+    Response.decode (Response.custom fc d).image = .ok (.custom (FunctionCode.new fc.value) d) := by
+  have hv := value_new fc.value
+  simp only [modelledReqCodes, List.mem_cons, List.not_mem_nil, or_false, not_or] at hm
+  show Response.decode ([fc.value] ++ d) = _
+  unfold Response.decode
+  simp only [List.singleton_append, List.isEmpty_cons, idx, List.getElem?_cons_zero, Res.bind'_ok,
+    Bool.false_eq_true, if_false]
+  generalize FunctionCode.new fc.value = g at hv
+  cases g
+  case custom c =>
+    have hc : c = fc.value := hv
+    subst hc
+    simp [minResponsePduLen, sliceFrom]
+  all_goals first
+    | (exfalso; rw [← hv] at hm; simp [FunctionCode.value] at hm; done)
+    | simp [minResponsePduLen, sliceFrom]
 
 end Modbus.AduRT
